@@ -9,7 +9,7 @@ use refimpl as r;
 pub const ALPHABET: [u32; 5] = [r::VER_DRAFT13, r::VER_CLASSIC, 0x8000_000b, 0x8000_000d, 0x0000_000c];
 pub const LISTS: u64 = 19_531; // sum_{k=0..6} 5^k
 pub const SRV_MODES: u64 = 3;
-pub const EXTRA: u64 = 256 + 5 + 1 + 1; // bit flips, lengths, another server, VER absent
+pub const EXTRA: u64 = 256 + 5 + 1 + 1 + 12; // bit flips, lengths, another server, VER absent, long lists
 pub const VARIANTS: u64 = LISTS * SRV_MODES + EXTRA;
 pub const PER_RUN: u64 = 60;
 
@@ -59,8 +59,17 @@ pub fn variant(k: u64, nonce_seed: u64) -> ReqSpec {
             ReqSpec::RawVer { size, nonce_seed, ver: minimal, srv: SrvMode::Len([0u16, 4, 28, 36, 64][(e - 256) as usize]) }
         } else if e == 261 {
             ReqSpec::RawVer { size, nonce_seed, ver: minimal, srv: SrvMode::Other(0xabcdef) }
-        } else {
+        } else if e == 262 {
             ReqSpec::RawVer { size, nonce_seed, ver: None, srv: SrvMode::Absent }
+        } else {
+            // long version lists (8, 32 or 64 entries of unknown versions) with draft-13 at one
+            // position: first, fourth, fifth (beyond the four the server must look at), last
+            let j = e - 263;
+            let len = [8usize, 32, 64][(j / 4) as usize];
+            let pos = [0usize, 3, 4, len - 1][(j % 4) as usize];
+            let mut list: Vec<u32> = (0..len as u32).map(|i| 0x8000_0100 + i).collect();
+            list[pos] = r::VER_DRAFT13;
+            ReqSpec::RawVer { size, nonce_seed, ver: Some(list.iter().flat_map(|v| v.to_le_bytes()).collect()), srv: if j % 2 == 0 { SrvMode::Absent } else { SrvMode::Correct } }
         }
     }
 }
